@@ -129,6 +129,10 @@ func (d *Document) UpdateTOC() error {
 	// 处理SDT类型的TOC
 	// 使用默认TOC配置，但保留生成目录时请求的最大标题级别
 	config := DefaultTOCConfig()
+	if tocSDT.tocMaxLevel == 0 {
+		// 打开的文档：级别记录在控件的标记里
+		tocSDT.tocMaxLevel = tocLevelsFromTag(tocSDT.Properties)
+	}
 	if tocSDT.tocMaxLevel > 0 {
 		config.MaxLevel = tocSDT.tocMaxLevel
 	}
@@ -645,6 +649,7 @@ func (d *Document) createWordFieldTOC(config *TOCConfig, entries []TOCEntry) []i
 				FontFamily: &FontFamily{ASCII: "宋体", HAnsi: "宋体", EastAsia: "宋体", CS: "Times New Roman"},
 				FontSize:   &FontSize{Val: "21"},
 			},
+			Tag:   tocLevelsTag(config.MaxLevel),
 			ID:    &SDTID{Val: "147458718"},
 			Color: &SDTColor{Val: "DBDBDB"},
 			DocPartObj: &DocPartObj{
